@@ -177,6 +177,10 @@ def gen_history(rng, nsteps=None, split_p=0.03, back_p=0.05, rep_p=0.08, types=N
         else:
             if k > 0 and rng.random() < split_p:
                 h.ops.append("a")
+                if h.tmax is not None and rng.random() < 0.25:
+                    # the next store starts by repeating the time the previous one ended with (outside the specification: what
+                    # `Encoder::append` does at an equal seam is compared with the model only)
+                    h.time(h.tmax)
             t = (h.tmax if h.tmax is not None else t - 1) + rng.choice([1, 1, 1, 2, 10, 1000])
             h.time(t)
         for i in range(len(types)):
